@@ -241,6 +241,63 @@ func c19Relay(c *Ctx, p *Prog, cl *ssa.Function, ob *Obligation) {
 	default:
 		ob.HoldNT("cap %d >= %d sends; wg.Add(%d)", capv, nsend, addN)
 	}
+	// no blocking receive that nobody may answer
+	ob = c.Obl("R1", "obfs4proxy:copyLoop#no-blocking-receive", "copyLoop never blocks on the error channel: a receive from it happens only where a value is known to be queued (after wg.Wait under len(errChan) > 0), or every copier sends exactly once on every path (a copier that reports only real errors leaves the relay waiting for ever when both directions end cleanly)")
+	{
+		badR := ""
+		// do all copiers send unconditionally?
+		allSend := true
+		for _, fn := range closures {
+			sent := false
+			allInstrs(fn, func(in ssa.Instruction) {
+				if sd, ok := in.(*ssa.Send); ok {
+					// on every path from the entry to every return
+					okAll := true
+					for _, r := range returnsOf(fn) {
+						if entryReachesWithout(fn, r, map[ssa.Instruction]bool{sd: true}) {
+							okAll = false
+						}
+					}
+					if okAll {
+						sent = true
+					}
+				}
+			})
+			if !sent {
+				allSend = false
+			}
+		}
+		allInstrs(cl, func(in ssa.Instruction) {
+			un, ok := in.(*ssa.UnOp)
+			if !ok || un.Op != token.ARROW || mk == nil || unspill(un.X) != ssa.Value(mk) {
+				return
+			}
+			guarded := hasFact(p.Facts(cl).NC(un.Block()), func(f Fact) bool {
+				bo, ok := f.Cond.(*ssa.BinOp)
+				if !ok {
+					return false
+				}
+				lc, _ := callOf(unspill(bo.X))
+				if lc == nil || p.CalleeID(lc.Common()) != "builtin:len" || unspill(lc.Common().Args[0]) != ssa.Value(mk) {
+					return false
+				}
+				k, isK := intConst(bo.Y)
+				op := bo.Op
+				if !f.Pol {
+					op = negOp(op)
+				}
+				return isK && (k == 0 && (op == token.GTR || op == token.NEQ) || k == 1 && op == token.GEQ)
+			})
+			if !guarded && !allSend {
+				badR = "the receive at " + p.InstrPos(un) + " can block for ever: it is not guarded by len(errChan) > 0 and not every copier sends on every path"
+			}
+		})
+		if badR != "" {
+			ob.Violate("%s", badR)
+		} else {
+			ob.HoldNT("receives are guarded by len(errChan) > 0 (copiers send unconditionally: %v)", allSend)
+		}
+	}
 	ob = c.Obl("R1", "obfs4proxy:copyLoop#returns-after-wait", "the relay returns only after both copiers finished (wg.Wait dominates every return) and reports the first error")
 	waits := p.CallsIn(cl, "(*sync.WaitGroup).Wait")
 	bad := ""
